@@ -39,6 +39,7 @@ def models(ctx):
             if r["ok"]:
                 raise core.Infra("%s no longer violates anything: invariants are vacuous" % cfg)
             ctx.extra.setdefault("deviation_witnesses", {})[cfg] = r["violated"]
+    leaves = sorted(leaves or [], key=lambda x: (len(x["t"]), x["t"]))      # TLC's workers print in any order
     if not leaves or len(leaves) < 1000:
         raise core.Infra("input export produced only %d sequences" % len(leaves or []))
     return leaves
@@ -92,7 +93,7 @@ def build_inputs(ctx, leaves):
         roles[w] = [r for r in roles[w] if r.ok]
     # 1. every sequence TLC explored, on real message types
     per = 1 if ctx.quick else 3
-    budget = 2600 if ctx.quick else 10 ** 9
+    budget = 2000 if ctx.quick else 10 ** 9
     order = list(range(len(leaves)))
     rng.shuffle(order)
     acc = [i for i in order if leaves[i]["acc"]]
@@ -121,7 +122,7 @@ def build_inputs(ctx, leaves):
     ctx.extra["cover_sequences"] = len(chosen)
     ctx.extra["cover_sequences_total"] = len(leaves)
     # 2. seeded conforming messages of every message type and structural mutations of them
-    nrand = 3 if ctx.quick else 25
+    nrand = 2 if ctx.quick else 25
     for w in dc.SCHEMAS:
         s = dc.stock(w)
         for mt in s.bytype:
@@ -148,6 +149,20 @@ def build_inputs(ctx, leaves):
                     ct = (b"10", ("%03d" % sm).encode())
                     data, allt = body + dc.wire([ct]), pre + [ct]
                 inputs.append((w, allt, data, sm, True, ["rand", mt, kind]))
+    # 3. Length typed fields that have no data partner in their message (Logon MaxMessageSize): ordinary fields
+    for w in dc.SCHEMAS:
+        s = dc.stock(w)
+        for mt, md in s.bytype.items():
+            mem = md["members"]
+            for i, m in enumerate(mem):
+                if m.field.type.strip() == "LENGTH" and (i + 1 == len(mem) or mem[i + 1].field.type.strip() != "DATA"):
+                    for val in (b"5", b"4096"):
+                        h, b, t = dc.gen_message(s, mt, rng, popt=0.2)
+                        b = [x for x in b if x[0] != m.field.number]
+                        nodes = dc.gen_members(s, mem, rng, popt=0.0, force={m.field.number}, values={m.field.number: val})
+                        toks = dc.flatten_nodes(h) + dc.flatten_nodes(nodes) + dc.flatten_nodes(t)
+                        data, allt, sm = dc.compose2(s.beginstring, mt, toks, "Cok")
+                        inputs.append((w, allt, data, sm, True, ["lone_length", mt, val.decode()]))
     return inputs
 
 
